@@ -57,6 +57,7 @@ func runC06(p *eng.Prog, r *eng.Report, tier string) {
 	registrationWithdrawn(c, "C06.8", "xmpp.Session.sentStanzas", 1)
 	registrationWithdrawn(c, "C06.8", "receipts.Handler.sent", 1)
 	registrationWithdrawn(c, "C06.8", "ibb.Listener.expected", 1)
+	goroutineEndsItsTracking(c, "C06.22")
 	// C06.7 a hand-off record queued for the handler is taken back when the call fails
 	handoffWithdrawn(c, "C06.7", "muc", "(*Channel).JoinPresence", "muc.Channel.join")
 	// lock discipline of the waiter tables
